@@ -16,8 +16,10 @@ MANIFEST = {
             "trailing counts, as the loader reads `?T`, the key \"*args\" and Block declarations) is exactly the shape of the "
             "binding — for every REQ/OPT/REST/POST/BLOCK combination and every format string in which `*` comes last; a "
             "declaration without rest is accepted by the model of checkAndPropagateArgs for k positional arguments exactly when "
-            "req <= k <= req+opt (composition with ArgsP.check_args_positional). With REST the walk is not characterised by a "
-            "theorem: two shapes on which it departs from the binding are refuted by computed witnesses and kept as findings. "
+            "req <= k <= req+opt (composition with ArgsP.check_args_positional); a declaration required ++ [rest] ++ trailing "
+            "is accepted exactly when req+trailing <= k (C26_arity_rest, through the star branch of the walk). With optional "
+            "parameters before the rest, or a block declaration after it, the walk departs from the binding: refuted by "
+            "computed witnesses and kept as findings. "
             "Tie: the real ti-c2json runs on generated C sources (mrb_define_method / _id / class_method, mrbc_define_method, "
             "one-line and multi-line specs) and its emitted arguments are compared with the model; end to end, ti is then run "
             "with the produced configuration on calls with 0..6 arguments; the output is converted twice and compared byte "
@@ -34,7 +36,7 @@ RULE = ("C sources of 8 bindings each: formats over 15 letters with |, *, &, !, 
 TRUSTED = ["lib/c2gen.py: accepted counts of a binding = req+post <= k and (rest or k <= req+opt+post)"]
 ASSUMPTIONS = ["a format with `*` has no argument letters after it (mruby's `*` takes everything left)"]
 PARTIAL = ["C26_rest_block_refuted: REST followed by BLOCK (kept finding)", "C26_opt_post_refuted: OPT together with POST (kept finding)",
-           "declarations with a rest parameter: arity through the binder is explored end to end, not proved",
+           "OPT together with REST: arity through the binder is explored end to end (and is the finding), not proved",
            "the mrb_get_args keyword format `:` is not converted (not generated)"]
 
 
